@@ -41,7 +41,11 @@ func runC19(r *Run, p *Prog) {
 			continue
 		}
 		for _, cs := range callsNamed(f, false, "strings.SplitN", "strings.Split", "strings.Cut", "strings.Index", "strings.IndexByte") {
-			if len(cs.Common.Args) >= 2 && T.T(cs.Common.Args[1]) == `const:":"` {
+			if a := ""; len(cs.Common.Args) >= 2 {
+				a = T.T(cs.Common.Args[1])
+				if a != `const:":"` && a != "const:58" {
+					continue
+				}
 				parser = f
 			}
 		}
@@ -72,9 +76,11 @@ func runC19(r *Run, p *Prog) {
 	}
 	// Bind and NewConnection are analysed in their inlined views (inline.go): whether the parsing, the stale-socket
 	// handling and the listen call are written in Bind or in helpers makes no difference to the rules below. The
-	// parser-specific rules (A2, the parser half of A4) still look at the parser function itself.
+	// parser-specific rules (A2, the parser half of A4) look at the parser's own inlined view.
 	vb := p.Inlined(bind, nil)
 	cg.AddView(vb)
+	parser = p.Inlined(parser, nil) // the validation may live in helpers of the parser (`return s.endpoint.validate()`)
+	cg.AddView(parser)
 	newConnBuilt := newConn
 	newConn = p.Inlined(newConn, nil)
 	cg.AddView(newConn)
@@ -191,13 +197,24 @@ func runC19(r *Run, p *Prog) {
 	in := parser.Params[1].Name()
 	locProto, locAddr := "", ""
 	var svcFields []string
-	if st, ok := ro.ServiceT.Underlying().(*types.Struct); ok {
+	var stringFields func(t types.Type, prefix string, depth int)
+	stringFields = func(t types.Type, prefix string, depth int) {
+		st, ok := t.Underlying().(*types.Struct)
+		if !ok || depth > 2 {
+			return
+		}
 		for i := 0; i < st.NumFields(); i++ {
-			if b, ok := st.Field(i).Type().(*types.Basic); ok && b.Kind() == types.String {
-				svcFields = append(svcFields, st.Field(i).Name())
+			ft := st.Field(i).Type()
+			if b, ok := ft.(*types.Basic); ok && b.Kind() == types.String {
+				svcFields = append(svcFields, prefix+st.Field(i).Name())
+			} else if isServiceState(types.NewPointer(ft)) && depth == 0 || depth > 0 {
+				if nt, ok := ft.(*types.Named); ok && nt.Obj().Pkg() != nil && nt.Obj().Pkg().Path() == pkgVarlink {
+					stringFields(ft, prefix+st.Field(i).Name()+".", depth+1) // a nested state struct (`endpoint{protocol, address}`)
+				}
 			}
 		}
 	}
+	stringFields(ro.ServiceT, "", 0)
 	succ := successReturns(T, parser)
 	if len(succ) == 0 {
 		r.Unresolved("A2", "success return of the address parser")
